@@ -1029,6 +1029,8 @@ def r4_cramer(repo: Repo, rep):
                 return RF.atom(f"|{inner!r}|")
             # value-changing (non-rational) functions: an opaque value, so the identity fails unless it cancels
             if isinstance(n, ast.Call) and (attr_chain(n.func) or "").split(".")[-1] in ("clamp", "clamp_min", "clamp_max", "clip", "relu", "maximum", "minimum", "sign", "round", "floor", "ceil", "nan_to_num", "where") and n.args:
+                if attr_chain(n.func).split(".")[-1] == "where":
+                    return RF.atom(f"where[{dump(n)[:60]}]")  # a value-dependent replacement: opaque whatever its condition is
                 inner = to_rf(n.args[0], atom)
                 return RF.atom(f"{attr_chain(n.func).split('.')[-1]}[{inner!r}]")
             return None
@@ -1174,6 +1176,8 @@ def r13_mask_combination(repo: Repo, rep):
 
 def run(repo: Repo, rep):
     r13_mask_combination(repo, rep)
+    from .c06 import r7b_edge_table  # the boundary of a polygon is the union of its sides: closeness is tested against the lines that carry them and no other
+    r7b_edge_table(repo, rep)
     r1_truth_tables(repo, rep)
     r2_pullback(repo, rep)
     r3_rowwise(repo, rep)
@@ -1197,6 +1201,8 @@ def run(repo: Repo, rep):
     from .c17 import r1_roundtrip, r5_point_data  # a partially evaluated expression denotes the same set: every constructor argument (pivot, flags, sub-domains) must be carried over; a fixed factor becomes the Point with its coordinates in space order
     r1_roundtrip(repo, rep)
     r5_point_data(repo, rep)
+    from .c12 import r6_empty_and_slices  # `points[:, list(space.keys())]` relies on Space[[names]] listing the names in the requested order
+    r6_empty_and_slices(repo, rep)
 
 
 _U = "src/torchphysics/problem/domains/domainoperations/union.py"
